@@ -680,7 +680,9 @@ def _barrier(eng, st, args, kwargs):
 
 @builtin('collections.defaultdict', 'defaultdict')
 def _defaultdict(eng, st, args, kwargs):
-    raise Unsupported('defaultdict construction outside a declared field')
+    # defaultdict(int) / defaultdict(lambda: None): an empty dict; the element kind and the default
+    # come from the declared kind of the field / local it is stored into (coerced on store)
+    return V(KDict(KStr, KDyn), None, meta='emptydict')
 
 
 # ---- logger objects: logging.getLogger(...) at module level -> opaque; .log/.info are no-ops
@@ -845,4 +847,19 @@ def _setattr(eng, st, args, kwargs):
     if not isinstance(name.meta, str):
         raise Unsupported('setattr with a non-constant attribute name')
     eng.setattr(obj, name.meta, val, st)
+    return NONE
+
+
+# ---- torch.nn.Module hooks (ghost counters per module)
+@method('Module', 'register_forward_pre_hook')
+def _reg_fwd(eng, st, recv, args, kwargs):
+    cur = eng.read_field(st, recv, 'fwd_hooks', cls='Module')
+    eng.write_field(st, recv, 'fwd_hooks', IntV(cur.term + 1), cls='Module')
+    return NONE
+
+
+@method('Module', 'register_full_backward_hook')
+def _reg_bwd(eng, st, recv, args, kwargs):
+    cur = eng.read_field(st, recv, 'bwd_hooks', cls='Module')
+    eng.write_field(st, recv, 'bwd_hooks', IntV(cur.term + 1), cls='Module')
     return NONE
